@@ -24,6 +24,67 @@ def load_anchors():
         return set(json.load(f)["functions"])
 
 
+def load_private_signatures():
+    p = os.path.join(HERE, "anchors.json")
+    if not os.path.exists(p):
+        return {}
+    with open(p) as f:
+        return json.load(f).get("private_signatures", {})
+
+
+def restore_renamed_anchors(facts_json, anchors):
+    """A private anchor that is absent while exactly one new private function
+    of the same scope has its signature is that anchor under a new name: names
+    do not matter to behaviour, so the old name is restored throughout the
+    facts.  Returns {new path: anchor path}."""
+    import re
+    sigs = load_private_signatures()
+    present = {f["path"] for f in facts_json["fns"]}
+    renamed = {}
+    for a, (ins, out) in sorted(sigs.items()):
+        if a in present or a not in anchors:
+            continue
+        parent = a.rsplit("::", 1)[0] if "::" in a else ""
+        cands = []
+        for f in facts_json["fns"]:
+            c = f["path"]
+            if c in anchors or c in renamed or f["kind"] not in ("Fn", "AssocFn") or f.get("vis") == "pub" or f.get("impl_trait"):
+                continue
+            cp = c.rsplit("::", 1)[0] if "::" in c else ""
+            if cp != parent:
+                continue
+            if [i.get("s") for i in (f.get("inputs") or [])] == ins and ((f.get("output") or {}).get("s")) == out:
+                cands.append(c)
+        if len(cands) == 1:
+            renamed[cands[0]] = a
+    if not renamed:
+        return renamed
+    rx = {c: re.compile(r"(?<![\w:])" + re.escape(c) + r"(?![\w])") for c in renamed}
+    names = {c.rsplit("::", 1)[-1]: a.rsplit("::", 1)[-1] for c, a in renamed.items()}
+
+    def walk(o):
+        if isinstance(o, dict):
+            fnv = o.get("fn") if isinstance(o.get("fn"), str) else o.get("path") if isinstance(o.get("path"), str) else None
+            for k, v in list(o.items()):
+                if isinstance(v, str):
+                    nv = v
+                    for c, a in renamed.items():
+                        if c in nv:
+                            nv = rx[c].sub(lambda m_: a, nv)
+                    if nv != v:
+                        o[k] = nv
+                else:
+                    walk(v)
+            if fnv in renamed and o.get("name") in names:
+                o["name"] = names[o["name"]]
+        elif isinstance(o, list):
+            for x in o:
+                walk(x)
+    walk(facts_json["fns"])
+    facts_json["renamed_anchors"] = renamed
+    return renamed
+
+
 def _remap_place(pl, lofs, ret=None):
     """ret: local that takes the place of the callee's return slot _0"""
     if ret is not None and pl["l"] == 0:
@@ -105,6 +166,40 @@ def _subst_types(obj, mapping, rx):
             _subst_types(v, mapping, rx)
 
 
+def _const_mapping(g, t):
+    """const generic parameter name of callee g -> integer argument at call site t"""
+    v = t["func"].get("v") or {}
+    if v.get("resolved") or v.get("trait"):
+        return None
+    names = g.get("generic_consts") or []
+    cargs = v.get("cargs") or []
+    if not names or len(names) != len(cargs):
+        return None
+    m = {n: a for n, a in zip(names, cargs) if isinstance(a, int) and _re.match(r"^[A-Za-z_][A-Za-z0-9_]*$", n)}
+    return m or None
+
+
+def _subst_consts(obj, cmap, rx):
+    """instantiate const generic parameters in a copied callee fragment: the
+    parameter used as a value, as an array length and as a repeat count"""
+    if isinstance(obj, list):
+        for x in obj:
+            _subst_consts(x, cmap, rx)
+        return
+    if not isinstance(obj, dict):
+        return
+    if obj.get("n_param") in cmap:
+        obj["n"] = cmap[obj.pop("n_param")]
+    v = obj.get("v")
+    if isinstance(v, dict) and v.get("cparam") in cmap:
+        obj["v"] = {"int": cmap[v["cparam"]], "size": 8}
+    for k, x in list(obj.items()):
+        if isinstance(x, str) and k in ("s", "full", "ty", "fn") and rx.search(x):
+            obj[k] = rx.sub(lambda m: str(cmap[m.group(0)]), x)
+        elif isinstance(x, (dict, list)):
+            _subst_consts(x, cmap, rx)
+
+
 def _type_mapping(g, t):
     """generic type parameter name of callee g -> type argument at call site t
     (only for direct calls: the arguments of a trait-method call belong to the
@@ -167,6 +262,8 @@ def inline_into(fj, by_path, anchors, stats):
         bofs = len(blocks)
         tmap = _type_mapping(g, t)
         trx = _re.compile(r"(?<![A-Za-z0-9_:])(" + "|".join(_re.escape(n) for n in tmap) + r")(?![A-Za-z0-9_])") if tmap else None
+        cmap = _const_mapping(g, t)
+        crx = _re.compile(r"(?<![A-Za-z0-9_:])(" + "|".join(_re.escape(n) for n in cmap) + r")(?![A-Za-z0-9_])") if cmap else None
         # locals
         for l in gb["locals"]:
             body["locals"].append(copy.deepcopy(l))
@@ -193,10 +290,15 @@ def inline_into(fj, by_path, anchors, stats):
                 _remap_term(nt, lofs, bofs, ret)
             if tmap:
                 _subst_types(nb, tmap, trx)
+            if cmap:
+                _subst_consts(nb, cmap, crx)
             blocks.append(nb)
         if tmap:
             for l in body["locals"][lofs:]:
                 _subst_types(l, tmap, trx)
+        if cmap:
+            for l in body["locals"][lofs:]:
+                _subst_consts(l, cmap, crx)
         # argument passing
         for i, a in enumerate(t["args"]):
             b["stmts"].append({"k": "assign", "pl": {"l": lofs + 1 + i, "p": []}, "rv": {"rv": "use", "op": copy.deepcopy(a)}, "sp": t.get("sp"), "exp": True})
@@ -811,6 +913,10 @@ def inline_helpers(facts_json, anchors=None):
     anchors = anchors if anchors is not None else load_anchors()
     if anchors is None:
         return {}
+    by_path = {}
+    for f in facts_json["fns"]:
+        by_path.setdefault(f["path"], f)
+    restore_renamed_anchors(facts_json, anchors)
     by_path = {}
     for f in facts_json["fns"]:
         by_path.setdefault(f["path"], f)
